@@ -52,7 +52,9 @@ def remap_curie_prefixes(converter: Converter, remapping: Mapping[str, str]) -> 
         for old, new_prefix in remapping.items()
         if converter.synonym_to_prefix.get(old) is not None
     }
-    records = {r.prefix: r for r in converter.records}
+    # work on copies so the input converter is left untouched
+    working_records = [r.model_copy(deep=True) for r in converter.records]
+    records = {r.prefix: r for r in working_records}
 
     modified_records = []
     for old, new_prefix in ordering:
@@ -67,7 +69,10 @@ def remap_curie_prefixes(converter: Converter, remapping: Mapping[str, str]) -> 
             continue
 
         record = records.pop(_old)
-        new_record = converter.get_record(new_prefix)
+        new_record = next(
+            (r for r in working_records if new_prefix in r._all_prefixes),
+            None,
+        )
         if new_record is not None and record != new_record:
             logger.debug(
                 "Remapping %s->%s would create a clash because of the existing record %r. Skipping.",
@@ -106,6 +111,7 @@ def remap_uri_prefixes(converter: Converter, remapping: Mapping[str, str]) -> Co
 
     records = []
     for record in converter.records:
+        record = record.model_copy(deep=True)
         new_uri_prefix = _get_uri_preferred_or_synonym(record, remapping)
         if new_uri_prefix is None:
             pass  # nothing to upgrade
@@ -137,6 +143,7 @@ def rewire(converter: Converter, rewiring: Mapping[str, str]) -> Converter:
     """
     records = []
     for record in converter.records:
+        record = record.model_copy(deep=True)
         new_uri_prefix = _get_curie_preferred_or_synonym(record, rewiring)
         if new_uri_prefix is None:
             pass  # nothing to upgrade
